@@ -493,7 +493,9 @@ def _contexts():
 
 NAMED = [("N0", "seq< one< 'a' >, opt< one< 'b' > > >"), ("N1", "seq< one< 'a' >, one< 'b' > >"),
          # a rule with a custom error_message (the struct body is smuggled through the definition text)
-         ("NC", "one< 'b' >, vh::named { static constexpr const char* error_message = \"custom message for NC\"; }; struct NCdummy : success")]
+         ("NC", "one< 'b' >, vh::named { static constexpr const char* error_message = \"custom message for NC\"; }; struct NCdummy : success"),
+         # ... and one whose own body raises: the rule try_catch_*_raise_nested< NX > blames, with its custom message
+         ("NX", "seq< one< 'a' >, must< one< 'b' > > >, vh::named { static constexpr const char* error_message = \"custom message for NX\"; }; struct NXdummy : success")]
 
 
 def _mk(body, tags, alphabet="abc", extra_inputs=()):
@@ -537,6 +539,11 @@ def _c05_family(tier, seed):
     out.append(_mk("sor< try_catch_return_false< one< 'a' >, must< one< 'b' > > >, seq< one< 'a' >, one< 'c' > > >", ["c05", "catch"]))
     out.append(_mk("star< try_catch_any_return_false< N0, must< one< 'c' > > > >", ["c05", "catch"]))
     out.append(_mk("try_catch_raise_nested< try_catch_raise_nested< one< 'a' >, must< N1 > > >", ["c05", "catch"]))
+    # the nested (outer) parse_error names the try_catch rule's sub-rule: a sub-rule with a custom error_message
+    out.append(_mk("try_catch_raise_nested< NX >", ["c05", "catch", "c05:nestmsg"]))
+    out.append(_mk("seq< opt< one< 'c' > >, try_catch_any_raise_nested< NX > >", ["c05", "catch", "c05:nestmsg"]))
+    out.append(_mk("sor< try_catch_return_false< try_catch_raise_nested< NX > >, star< any > >", ["c05", "catch", "c05:nestmsg"]))
+    out.append(_mk("try_catch_raise_nested< NC, must< one< 'c' > > >", ["c05", "catch", "c05:nestmsg"]))
     # (d) positions: raises after consumed line ends, every eol policy (choose_cfgs), lazy tracking, initial counters
     for al, body in [
         ("a\nb", "seq< star< sor< one< 'a' >, eol > >, must< one< 'b' >, eof > >"),
@@ -560,7 +567,7 @@ def _c05_family(tier, seed):
         out.insert(0, _mk("seq< opt< one< 'b' > >, rematch< one< 'a' >, must< one< 'b' > > > >", ["c05", "c05:pos", "c05:known", "raise"]))
     if tier != "thorough":
         # keep the quick tier small but let every seed see a different slice of (a)-(c); (d) always present
-        keep = [g for g in out if "c05:pos" in g.tags or "c05:pack" in g.tags] + [g for g in out if "c05:pos" not in g.tags and "c05:pack" not in g.tags][:84]
+        keep = [g for g in out if "c05:pos" in g.tags or "c05:pack" in g.tags or "c05:nestmsg" in g.tags] + [g for g in out if "c05:pos" not in g.tags and "c05:pack" not in g.tags and "c05:nestmsg" not in g.tags][:84]
         out = keep
     return out
 
